@@ -1,6 +1,8 @@
 package props
 
 import (
+	"os"
+	"path/filepath"
 	"unicode/utf8"
 	"bytes"
 
@@ -13,6 +15,8 @@ import (
 
 	"github.com/robfig/soy"
 	"github.com/robfig/soy/data"
+	"github.com/robfig/soy/parse"
+	"github.com/robfig/soy/parsepasses"
 	"github.com/robfig/soy/soyhtml"
 	"github.com/robfig/soy/template"
 
@@ -31,10 +35,30 @@ var globalsInTwoMaps *[2]data.Map
 
 // compileBundle compiles sources with the implementation under test.
 func compileBundle(names, srcs []string, globals map[string]ref.Value) (c *compiled, err error, panicked interface{}) {
+	if handBuilt > 0 && c03Pass == nil && globalsInTwoMaps == nil {
+		return compileByHand(names, srcs, globals, handBuilt == 1)
+	}
 	panicked = catch(func() {
 		b := soy.NewBundle()
-		for i := range names {
-			b.AddTemplateString(names[i], srcs[i])
+		if fileRoute && len(srcs) > 0 && strHash(strings.Join(srcs, "\x00"))%3 == 0 {
+			// the same sources as files on disk, added one by one (the file name of an error is then the
+			// path: only for checks that do not look at it)
+			dir := filepath.Join(outDir(), "route-"+shard())
+			os.RemoveAll(dir)
+			os.MkdirAll(dir, 0o755)
+			defer os.RemoveAll(dir)
+			for i := range names {
+				fp := filepath.Join(dir, fmt.Sprintf("%02d.soy", i))
+				if werr := os.WriteFile(fp, []byte(srcs[i]), 0o644); werr != nil {
+					err = fmt.Errorf("harness: cannot write %s: %v", fp, werr)
+					return
+				}
+				b.AddTemplateFile(fp)
+			}
+		} else {
+			for i := range names {
+				b.AddTemplateString(names[i], srcs[i])
+			}
 		}
 		if len(globals) > 0 && globalsInTwoMaps != nil {
 			// the application's own maps, kept by it and given again at every compilation
@@ -57,6 +81,9 @@ func compileBundle(names, srcs []string, globals map[string]ref.Value) (c *compi
 			} else {
 				b.AddGlobalsMap(toDataMap(globals))
 			}
+		}
+		if c03Pass != nil {
+			b.AddParsePass(c03Pass)
 		}
 		reg, e := b.Compile()
 		// a bundle may be compiled more than once (Compile for the JavaScript generator, CompileToTofu
@@ -82,6 +109,46 @@ func compileBundle(names, srcs []string, globals map[string]ref.Value) (c *compi
 	})
 	return
 }
+
+// handBuilt makes compileBundle build the registry through the lower-level API that Bundle.Compile itself
+// uses (parse.SoyFile, Registry.Add, the passes of package parsepasses, soyhtml.NewTofu): 1 with the
+// message pass, 2 without it (an application that has no catalogues may leave it out: the messages then
+// carry no ids and render their source text).
+var handBuilt int
+
+func compileByHand(names, srcs []string, globals map[string]ref.Value, messages bool) (c *compiled, err error, panicked interface{}) {
+	panicked = catch(func() {
+		reg := &template.Registry{}
+		for i := range names {
+			tree, e := parse.SoyFile(names[i], srcs[i])
+			if e != nil {
+				err = e
+				return
+			}
+			if e := reg.Add(tree); e != nil {
+				err = e
+				return
+			}
+		}
+		if e := parsepasses.CheckDataRefs(*reg); e != nil {
+			err = e
+			return
+		}
+		if e := parsepasses.SetGlobals(*reg, toDataMap(globals)); e != nil {
+			err = e
+			return
+		}
+		if messages {
+			parsepasses.ProcessMessages(*reg)
+		}
+		c = &compiled{soyhtml.NewTofu(reg), reg}
+	})
+	return
+}
+
+// fileRoute makes compileBundle load a third of the bundles from files instead of strings (set by checks
+// that judge what is rendered, not where an error is reported).
+var fileRoute bool
 
 // recompileCheck makes compileBundle compile every bundle a second time (set by the checks that judge
 // the compiler's decision: C07, C13).
